@@ -121,6 +121,22 @@ def judge_loss(case, obs):
         return bool(losses) and rec.get("t_done", 1e9) >= min(losses) - 1e-9
 
     judge_results(case, obs, drv, allow_comm_error, out)
+    # ---- a send in flight when the gateway is lost FAILS when the caller asked for exceptions (it is not quietly
+    #      repeated on the next connection): single-command callers whose frame was on its way and unanswered
+    if exceptions and len(losses) >= 1 and case.get("how") in ("error", "eof") and drv == "tridonic":
+        t_loss = 1000.0 + losses[0]
+        for ci, (cspec, rec) in enumerate(zip(case["callers"], obs["callers"])):
+            real = [c for c in cspec["cmds"] if c["k"] not in ("sleep", "progress", "power")]
+            if cspec["kind"] not in ("send", "txn") or len(real) != 1 or rec["status"] != "ok":
+                continue
+            key = sc.frame_key(sc.build_cmd(real[0]))
+            written = [w["t"] for w in obs["wire"] if w["kind"] == "send" and (w["bits"], w["value"]) == key]
+            if written and min(written) < t_loss - 1e-9 and rec.get("t_done", 0) + 1000.0 > t_loss + 1e-6 and len(written) > 1:
+                out.append(("C17:%s:in-flight-send-retried-instead-of-failing:%s" % (drv, cspec["kind"]),
+                            "%s caller %d (%s %s) had its frame written at t=%.3f, the gateway was lost at t=%.3f, and the "
+                            "caller (exceptions requested) returned normally at t=%.3f after the frame was written again at %r"
+                            % (drv, ci, cspec["kind"], real[0]["k"], min(written) - 1000.0, losses[0], rec["t_done"],
+                               [round(x - 1000.0, 3) for x in written[1:]])))
     # ---- hangs
     status = [s for (_, s) in obs["status_log"]]
     failed = "failed" in status
@@ -140,7 +156,8 @@ def judge_loss(case, obs):
         if not noticed:
             out.append(("C17:%s:loss-not-reported" % drv, "device lost at t=%r but no 'disconnected' status; log %r" % (losses, obs["status_log"])))
     attempts = [(t, ok) for (t, ok) in obs["open_attempts"]]
-    simple = len(losses) == 1 and not restores and case.get("how") in ("error", "eof", "silent")
+    simple = len(losses) == 1 and not restores and case.get("how") in ("error", "eof", "silent") and \
+        not any(e["what"] == "app_connect" for e in case.get("events", []))
     if simple and obs["connected"]:
         after = [(t, ok) for (t, ok) in attempts if t > 1000.0 + losses[0] + 1e-6]
         if limit is not None:
@@ -163,11 +180,14 @@ def judge_loss(case, obs):
             out.append(("C17:%s:reconnect-spacing" % drv, "attempts spaced %r, configured interval %r" % (gaps, interval)))
     # ---- 'failed' only after exactly `limit` attempts since the last successful connection (every episode)
     if case.get("how") in ("error", "eof", "silent") and obs["connected"]:
-        marks = sorted([(t, 1, s_) for (t, s_) in obs["status_log"]] + [(t, 0, "attempt-ok" if ok else "attempt-failed") for (t, ok) in attempts])
+        marks = sorted([(t, 1, s_) for (t, s_) in obs["status_log"]] + [(t, 0, "attempt-ok" if ok else "attempt-failed") for (t, ok) in attempts]
+                       + [(t, -1, "app-connect") for t in obs.get("app_connect_calls", [])])
         n_failed = 0
         for (t, _, what) in marks:
             if what == "connected":
                 n_failed = 0
+            elif what == "app-connect":
+                n_failed = -1          # the application's own connect() is not one of the automatic retries
             elif what.startswith("attempt"):
                 # an attempt counts as failed unless a 'connected' report follows it (an open that succeeds but
                 # whose handshake write fails is a failed attempt too)
@@ -179,6 +199,15 @@ def judge_loss(case, obs):
                                 "connection; configured limit %r; status log %r" % (t - 1000.0, n_failed, limit,
                                                                                    [(round(a - 1000.0, 3), b) for a, b in obs["status_log"]])))
                 n_failed = 0
+        calls = obs.get("app_connect_calls", [])
+        if calls and limit is not None and not present_at_end:
+            # every round of retries that ends without a connection is reported, also the second one
+            n_reports = len([1 for (t, s_) in obs["status_log"] if s_ == "failed"])
+            if failed and n_reports < 1 + len(calls):
+                out.append(("C17:%s:failed-not-reported-again" % drv, "the application called connect() again at %r with the device "
+                            "still absent; %d retry rounds ended without a connection but 'failed' was reported %d time(s); "
+                            "status log %r" % ([round(t - 1000.0, 3) for t in calls], 1 + len(calls), n_reports,
+                                               [(round(a - 1000.0, 3), b) for a, b in obs["status_log"]])))
         if present_at_end and not failed and obs["_connected_at_end"] is False:
             out.append(("C17:%s:never-reconnects" % drv, "device back since t=%.3f, 'failed' never reported, but the driver is still "
                         "disconnected at t=%.1f; status log %r" % (restores[-1], obs["t_end"], obs["status_log"][-4:])))
@@ -306,7 +335,7 @@ def loss_case(draw, driver=None):
     exceptions = draw(st.booleans())
     callers = []
     for ci in range(draw(st.integers(0, 3))):
-        kind = draw(st.sampled_from(["send", "send", "seq"]))
+        kind = draw(st.sampled_from(["send", "send", "seq", "txn"]))       # txn: own transaction, in_transaction=True sends
         cmds = [_cmd(draw, 2 + ci * 9 + j, Q + N) for j in range(1 if kind == "send" else draw(st.integers(1, 3)))]
         callers.append({"kind": kind, "cmds": cmds, "t0": draw(st.sampled_from([0.0, 0.0, 0.01, 0.03, 0.06, 0.5, 1.2, 2.5]))})
     t_loss = draw(st.sampled_from([0.0, 0.0005, 0.01, 0.02, 0.03, 0.04, 0.045, 0.05, 0.06, 0.07, 0.09, 0.2]))
@@ -327,6 +356,11 @@ def loss_case(draw, driver=None):
                                  "lost-during-handshake"]))
     if back == "lost-during-handshake" and how == "write_fails":
         back = "soon"
+    if back == "never" and limit is not None and how in ("error", "eof") and draw(st.booleans()):
+        t_again = t_loss + (limit + 1) * interval + 0.7
+        events.append({"t": round(t_again, 4), "what": "app_connect"})
+        if draw(st.booleans()):
+            events.append({"t": round(t_again + (limit + 2) * interval + 0.7, 4), "what": "app_connect"})
     if back != "never":
         t_back = t_loss + {"soon": 0.35, "during-wait": interval * 1.5 + 0.31, "late": interval * 2.2 + 0.31,
                            "flaky-handshake": 0.35, "lost-during-handshake": 0.2}[back]
@@ -453,6 +487,8 @@ def features(case):
         f.append("event:" + e["what"] + (":silent" if e.get("notify") is False else ":eof" if e.get("eof") else ""))
     if case.get("glob"):
         f.append("device-path-is-a-glob-pattern")
+    if any(e["what"] == "app_connect" for e in case.get("events", [])):
+        f.append("application-calls-connect-again-after-failed")
     if any(c.get("cancel_with_report") for c in case["callers"]):
         f.append("cancellation-coincides-with-a-report")
     if any(e.get("renamed") for e in case.get("events", [])):
